@@ -70,6 +70,12 @@ bool Interp::produce(int dst, int f, dd_edge* e, const Table& T, const char* wha
     for (size_t i = 1; i < T.size(); i++) if (!exactVal(T[i], T[0])) { constant = false; break; }
     if (!constant) R.labels.add("nonconstant_result");
     W.setSlot(dst, f, e, T2);
+    // (EV* forests: the library compares float edge values with a 1e-6 tolerance, so whether two nearly
+    // equal nodes are one node or two depends on what the deletion policy has reclaimed; their structure
+    // and node counts are not comparable across policies -- the values are, and O1 checks those)
+    // Results computed *from* EV* operands (comparisons into a boolean forest, copies) inherit the
+    // problem at points where two values are nearly equal, so a program with an EV* forest is compared
+    // across policies by its values only (see runCase).
     if (C.fingerprint) {
         std::string cf = canonicalForm(W, f, *e);
         uint64_t h = 1469598103934665603ULL;
@@ -830,15 +836,12 @@ bool Interp::step(const Step& s, int index)
 void Interp::run()
 {
     W.start(P.ct);
-    for (auto& st : P.steps) if (!st.empty() && st[0] == "strict") W.strictWorld = true;
-    if (getenv("MVH_STRICT_WORLD")) W.strictWorld = true;      // development aid: hunt behind the exclusion
     for (auto& d : P.domains) {
         W.addDomain(d);
         for (int x : d) if (x == 1) R.labels.add("variable_of_size_1");
     }
     for (auto& f : P.forests) {
-        const int before = W.excludedIdent1;
-        if (W.addForest(f) < 0) R.labels.add(W.excludedIdent1 > before ? "excluded.identity_relation_size1_variable" : "forest_refused");
+        if (W.addForest(f) < 0) R.labels.add("forest_refused");
     }
     for (size_t i = 0; i < P.steps.size(); i++) {
         if (!step(P.steps[i], int(i))) return;
@@ -899,6 +902,7 @@ RunResult runCase(const Program& P, int tier)
     Checks C = checksFor(P.property);
     if (P.property != "C12") return runProgram(P, C);
     C.fingerprint = true;
+    for (auto& f : P.forests) if (f.label == 'T') C.fingerprint = false;     // EV*: values only (see produce())
     RunResult first;
     bool haveFirst = false;
     std::string firstName;
@@ -917,6 +921,7 @@ RunResult runCase(const Program& P, int tier)
         for (auto& kv : r.labels.c) if (kv.first == "both_storage_forms" || kv.first == "node_death" || kv.first == "handle_reuse") first.labels.add(kv.first, kv.second);
         first.labels.add("policy_variants");
     }
+    if (!C.fingerprint) first.labels.add("structure_not_compared_evstar");
     first.nontrivial = first.ok && nontrivialRule(P.property, first.labels);
     return first;
 }
